@@ -440,7 +440,7 @@ func TestCheck(t *testing.T) {
 		"samples":                       samples,
 		"rule":                          "Part A: BFS to closure over the implementation's private state key (sharedN, excl holder, 4 guard states); every one of the 20 alphabet operations is executed from every reachable state on a fresh RWMutex and compared with a POSIX one-byte lock model. Part B: every (holder kind, waiter kind, event, event time) combination of the blocking Lock/RLock on a synctest fake clock.",
 	}
-	if outcomes.N() < 8 || bDistinct.N() < 6 {
+	if (outcomes.N() < 8 || bDistinct.N() < 6) && run.NViolations() == 0 {
 		run.HarnessError("vacuous exploration: %d / %d distinct outcomes", outcomes.N(), bDistinct.N())
 	}
 	if os.Getenv("VERIF_DEBUG") != "" {
